@@ -155,7 +155,18 @@ pub fn inputs_c18(r: &mut Rng, n: usize, _tier: &str, out: &mut dyn Write) {
             }
             16..=18 => writeln!(out, "to_unit {} {}", dstr(total(r)), u).unwrap(),
             20 => writeln!(out, "{} {}", r.pick(&["in_seconds", "from_seconds_u"]), u).unwrap(),
-            21..=28 => writeln!(out, "dmulf {} {}", dstr(total_10ky(r)), h(factor_f64(r))).unwrap(),
+            21..=27 => writeln!(out, "dmulf {} {}", dstr(total_10ky(r)), h(factor_f64(r))).unwrap(),
+            28 => {
+                // products that are whole numbers of nanoseconds although the factor has many binary digits:
+                // d = k * 2^j ns, q = base + i * 2^-j (the clause "exactly the product whenever that is a whole number
+                // of nanoseconds below 2^53"; recorded finding D42)
+                let j = 1 + r.below(40) as i32;
+                let k = 1 + r.below(1 << 12) as i128;
+                let d = (k << j) * if r.chance(1, 4) { -1 } else { 1 };
+                let base = r.below(200) as f64;
+                let q = base + (r.below(1 << j.min(30)) as f64) * 2f64.powi(-j);
+                writeln!(out, "dmulf {} {}", dstr(d), h(if r.chance(1, 4) { -q } else { q })).unwrap()
+            }
             _ => {
                 let sign = r.range_i64(-2, 2);
                 let names = ["d", "h", "min", "s", "ms", "us", "ns"];
